@@ -253,8 +253,9 @@ type World struct {
 	Cycles          []CycleScript   `json:"cycles"`
 	// raw extra objects (hostile worlds)
 	ExtraBindRequests []RawBindRequest `json:"extraBindRequests,omitempty"`
-	Family            string           `json:"family,omitempty"` // C05 clause (b): reclaim | preempt
-	RawOps            []RawOp          `json:"rawOps,omitempty"` // corruptions of the built objects (rawops.go)
+	Family            string           `json:"family,omitempty"`  // C05 clause (b): reclaim | preempt
+	Family2           string           `json:"family2,omitempty"` // variant of the constructed family
+	RawOps            []RawOp          `json:"rawOps,omitempty"`  // corruptions of the built objects (rawops.go)
 	// PersistentScheduler: one scheduler process lives through all cycles instead of a restart per cycle (process.go)
 	PersistentScheduler bool `json:"persistentScheduler,omitempty"`
 }
